@@ -522,6 +522,16 @@ def check_entry(inp):
     from musiclang.write.time_utils import get_score_between, get_chord_between, repeat_until_duration
     s = sound.load_score(inp['score'])
     how, kind = inp['how'], inp['kind']
+    if kind in ('float', 'npfloat'):
+        # the property quantifies over rational cut points; a float cut point is only "the same number" as long as the
+        # arithmetic it enters stays exact, i.e. when every duration of the score is dyadic too (against triplets or
+        # fifths float subtraction rounds, and the pieces legitimately differ in the last digit: false alarm seen in a
+        # thorough run).  Seed C12-6 shows on dyadic material.
+        def dyadic(q):
+            d = Fraction(q).denominator
+            return d & (d - 1) == 0
+        if not all(dyadic(n.duration) for c in s.chords for m in c.score.values() for n in m.notes):
+            return None
     if how == 'repeat':
         d = F(inp['d'])
         v = _as_kind(d, kind)
